@@ -1,4 +1,5 @@
 import PlzVerif.Lemmas.AspOps
+import PlzVerif.Lemmas.AspOpsPrefix
 import PlzVerif.Model.AspInterp
 import PlzVerif.Model.PyInterp
 import PlzVerif.Model.AspGenerated
@@ -164,6 +165,59 @@ theorem C16_ops_partial {V X : Type} (t : Tree V X) (l : List (BinOp × X))
 example : swallows (X := Nat) F.prec (binFlat [(.lt, 2), (.add, 3), (.mul, 4)]) = false := by decide
 -- … and excludes the witness: 1 - 2 * 3 - 4
 example : swallows (X := Nat) F.prec (binFlat [(.sub, 2), (.mul, 3), (.sub, 4)]) = true := by decide +kernel
+
+/-! The class predicate is exact, not an over-approximation, on all chains of up to four operators over one
+    operator per precedence level: asp's tree differs from the Python tree **iff** `swallows`. -/
+
+/-- one binary operator per precedence level -/
+def repOps : List BinOp := [.or_, .and_, .lt, .union, .add, .mul]
+
+def chainsOf : Nat → List (List (BinOp × Nat))
+  | 0 => [[]]
+  | n + 1 => (chainsOf n).flatMap fun l => repOps.map fun b => (b, n) :: l
+
+def exactOn (l : List (BinOp × Nat)) : Bool :=
+  let asp : Tree Nat Nat := aspGroupL F.prec (.val 0) (binFlat l)
+  let py : Tree Nat Nat := (climb (l.length + 1) (-100) (.val 0) (binChain l)).1
+  swallows F.prec (binFlat l) == !(decide (asp = py))
+
+theorem C16_swallows_exact_upto4 :
+    ((chainsOf 1 ++ chainsOf 2 ++ chainsOf 3 ++ chainsOf 4).all exactOn) = true := by decide +kernel
+
+/-- **Partial form of C16 for chains as written** (prefix `-` and `not` included): the head operand with its
+    prefix and every `op [prefix] operand` hoisted into the flat list exactly as the parser does it; `not` standing
+    where the Python grammar allows one (at the head or after `and` / `or`).  If no operator swallows, the tree asp
+    evaluates is the tree of the Python grammar — for chains of any length. -/
+theorem C16_ops_partial_with_prefix {V X : Type} (hu : Option UnOp) (head : X) (rest : Chain X)
+    (hv : Asp.validNot rest = true) (h : swallows F.prec (flatten hu rest) = false) :
+    aspGroupL F.prec (Tree.operand (V := V) head) (flatten hu rest) = pyGroup hu head rest := by
+  have hs : swallows pyPrec (flatten hu rest) = false := by
+    rw [← swallows_congr F.prec pyPrec prec_order]; exact h
+  rw [← pyGroup_eq_aspGroup hu head rest hv hs]
+  cases hl : flatten hu rest with
+  | nil => rfl
+  | cons o os => simp only [aspGroupL]; exact aspGroup_congr F.prec pyPrec prec_order os _ o
+
+-- satisfiable: `-a * b + c and not d`  (hoisted: neg, *, +, and, not)
+example : Asp.validNot (X := Nat) [(.mul, none, 1), (.add, none, 2), (.and_, some .not_, 3)] = true ∧
+    swallows F.prec (flatten (X := Nat) (some .neg) [(.mul, none, 1), (.add, none, 2), (.and_, some .not_, 3)]) = false := by
+  decide
+
+/-! With prefix operators the class predicate is also exact on all chains of up to three binary operators. -/
+
+def prefixes : List (Option UnOp) := [none, some .neg, some .not_]
+
+def chainsU : Nat → List (Chain Nat)
+  | 0 => [[]]
+  | n + 1 => (chainsU n).flatMap fun l => repOps.flatMap fun b => prefixes.map fun u => (b, u, n) :: l
+
+def exactOnU (hu : Option UnOp) (rest : Chain Nat) : Bool :=
+  let asp : Tree Nat Nat := aspGroupL F.prec (.operand 100) (flatten hu rest)
+  swallows F.prec (flatten hu rest) == !(decide (asp = pyGroup hu 100 rest))
+
+theorem C16_swallows_exact_with_prefix_upto3 :
+    (prefixes.all fun hu => ((chainsU 1 ++ chainsU 2 ++ chainsU 3).filter Asp.validNot).all (exactOnU hu)) = true := by
+  decide +kernel
 
 /-- At most two binary operators: always the Python tree. -/
 theorem C16_ops_two {V X : Type} (t : Tree V X) (a b : BinOp × X) :
